@@ -191,11 +191,27 @@ Inductive delivery :=
    np.asarray; wf_none = None becomes :undefined instead of being passed on as None *)
 Record wflags := mkWF { wf_kg : bool ; wf_none : bool }.
 
+Definition is_boolnum (v : jv) : bool := is_boolj v || is_numlike v.
+Definition bn_row (n : nat) (v : jv) : bool :=
+  match v with JArr l => Nat.eqb (length l) n && forallb is_boolnum l | _ => false end.
+Definition leaves (v : jv) : list jv := match v with JArr l => l | x => [x] end.
+(* kg_asarray keeps a list whose np.asarray has a numeric dtype: a flat list (or equal-length rows) of booleans AND
+   numbers becomes an int/float array, its true/false arrive as 1/0 (all-boolean lists stay boolean) *)
+Definition bn_mix (v : jv) : bool :=
+  match v with
+  | JArr l =>
+      let flat := forallb is_boolnum l in
+      let rows := match l with JArr r0 :: _ => forallb (bn_row (length r0)) l | _ => false end in
+      let lv := flat_map leaves l in
+      (flat || rows) && existsb is_boolj lv && existsb is_numlike lv
+  | _ => false
+  end.
+
 Definition deliver (wf : wflags) (v : jv) : delivery :=
   match v with
   | JNull => if wf_none wf then DIntact else DSkipped
   | JArr l =>
-      if wf_kg wf then DIntact else
+      if wf_kg wf then (if bn_mix v then DChanged else DIntact) else
       if forallb is_scalar l then
         if existsb is_strj l && existsb (fun x => is_numlike x || is_boolj x) l
         then DChanged else DIntact                       (* true/false next to numbers become 1/0: the same Klong value *)
